@@ -97,8 +97,8 @@ fn lender_exec(p: P) -> ExecEnd {
         let (drops_s, drops_x, gone, live, stats) = (Arc::clone(&drops_s), Arc::clone(&drops_x), Arc::clone(&gone), Arc::clone(&live), Arc::clone(&stats));
         let rounds = p.rounds;
         hs.push(shuttle::thread::spawn(move || {
-            let mut mine = Some(mine);
-            let mut loan: Option<Loan<Payload, Payload>> = None;
+            let mut mine = sim::Leaky::new(Some(mine));
+            let mut loan: sim::Leaky<Option<Loan<Payload, Payload>>> = sim::Leaky::new(None);
             let steps = rounds * 4;
             for _ in 0..steps {
                 if sim::has_violation() {
@@ -118,7 +118,7 @@ fn lender_exec(p: P) -> ExecEnd {
                                             if n > 1 {
                                                 sim::violation("C44.two-live-loans", "two-live-loans", format!("task {t}: lend handed out a loan while {} other loan(s) were live", n - 1));
                                             }
-                                            loan = Some(x);
+                                            *loan = Some(x);
                                         }
                                         None => {
                                             sim::log_event(t, "lend -> refused");
@@ -185,7 +185,6 @@ fn lender_exec(p: P) -> ExecEnd {
                 }
             }
             if sim::has_violation() {
-                sim::drop_or_leak((loan.take(), mine.take()));
                 return;
             }
             if let Some(l) = loan.take() {
@@ -231,8 +230,9 @@ fn state_exec(p: P, keys: &Keys) -> ExecEnd {
         let rounds = p.rounds;
         let admin: memory::State<CS> = state.clone();
         hs.push(shuttle::thread::spawn(move || {
-            let client = Client::new(st);
-            let mut ctx: Vec<Option<<memory::State<CS> as aranya_fast_channels::AfcState>::SealCtx>> = (0..ids.len()).map(|_| None).collect();
+            let client = sim::Leaky::new(Client::new(st));
+            let admin = sim::Leaky::new(admin);
+            let mut ctx: sim::Leaky<Vec<Option<<memory::State<CS> as aranya_fast_channels::AfcState>::SealCtx>>> = sim::Leaky::new((0..ids.len()).map(|_| None).collect());
             for _ in 0..rounds * 4 {
                 if sim::has_violation() {
                     break;
@@ -313,7 +313,6 @@ fn state_exec(p: P, keys: &Keys) -> ExecEnd {
                 }
             }
             if sim::has_violation() {
-                sim::drop_or_leak((ctx, client, admin));
                 return;
             }
             for (c, x) in ctx.iter_mut().enumerate() {
